@@ -56,12 +56,13 @@ type params struct {
 	early   bool // start handing off before the connection attempt has been answered
 	late    bool // start handing off while a later reconnect attempt is in progress
 	admin   bool // an admin thread changes the destination's address (a dial that hangs) while traffic flows
+	readdr  bool // an admin thread moves the destination to another, healthy address while the connection to the old endpoint (which never reads) is stuck in a write
 	remove  bool // an admin thread removes the destination from the route (Shutdown of a destination whose connection may be failing at that moment) while traffic flows
 	spool   bool // spooling on (in-memory filesystem), lines enter the spool at the production pace of 500 us each
 }
 
 func (p params) String() string {
-	return fmt.Sprintf("endpoint=%s lines=%d iobuf=%d connbuf=%d early=%v late=%v admin=%v spool=%v remove=%v", behaviours[p.beh].name, p.nlines, p.iobuf, p.connbuf, p.early, p.late, p.admin, p.spool, p.remove)
+	return fmt.Sprintf("endpoint=%s lines=%d iobuf=%d connbuf=%d early=%v late=%v admin=%v spool=%v remove=%v readdr=%v", behaviours[p.beh].name, p.nlines, p.iobuf, p.connbuf, p.early, p.late, p.admin, p.spool, p.remove, p.readdr)
 }
 
 type exec struct {
@@ -70,6 +71,7 @@ type exec struct {
 	viol     string
 	out      string
 	maxSteps int
+	handed   int
 }
 
 func (e *exec) Body() {
@@ -104,6 +106,16 @@ func (e *exec) Body() {
 			rt.UpdateDestination(0, map[string]string{"addr": "10.1.1.1:2003"})
 		})
 	}
+	if e.p.readdr {
+		// "modDest r 0 addr=<healthy endpoint>" once the old connection's writer is stuck
+		vrt.GoNamed("admin", func() {
+			vrt.WaitUntil("two lines handed off", func() bool { return e.handed >= 2 })
+			e.net.Mode = destharn.ReadAll // the new endpoint reads; the old connection's pending write stays blocked
+			if err := rt.UpdateDestination(0, map[string]string{"addr": "10.1.1.2:2003"}); err != nil && e.viol == "" {
+				e.viol = "UpdateDestination(addr) returned " + err.Error()
+			}
+		})
+	}
 	removed := !e.p.remove
 	if e.p.remove {
 		// "delDest r 0" from the admin interface
@@ -114,7 +126,8 @@ func (e *exec) Body() {
 			removed = true
 		})
 	}
-	c0 := counters(d.Key)
+	key0 := d.Key // an address change renames the destination (and its counters)
+	c0 := counters(key0)
 	var lines []string
 	for i := 0; i < e.p.nlines; i++ {
 		l := fmt.Sprintf("metric.number%d %d %d", i, i, 1000+i)
@@ -133,6 +146,7 @@ func (e *exec) Body() {
 			e.maxSteps = ds
 		}
 		other.Dispatch([]byte(l)) // another route is served in the same pass
+		e.handed++
 	}
 	vrt.Sleep(3500 * time.Millisecond)
 	vrt.Quiesce()
@@ -140,7 +154,7 @@ func (e *exec) Body() {
 	// endpoint which never reads can hold up for ever; and three callers of Conn.close() share a
 	// two-slot channel): recorded in the outcome only
 	adminReturned := removed
-	c1 := counters(d.Key)
+	c1 := counters(key0)
 	slow, down := c1["slow_conn"]-c0["slow_conn"], c1["conn_down"]-c0["conn_down"]
 	recv := e.net.AllRecv()
 	got := 0
@@ -164,7 +178,7 @@ func (e *exec) Body() {
 		e.viol = "the other route did not get every line"
 		return
 	}
-	if e.p.admin || e.p.spool || e.p.remove {
+	if e.p.admin || e.p.spool || e.p.remove || e.p.readdr {
 		return // only the hand-off bound is judged while the address is being changed / with spooling (accounting: C07)
 	}
 	switch behaviours[e.p.beh].name {
@@ -239,7 +253,13 @@ func main() {
 						scns = append(scns, &vrt.Scenario{Name: q.String(), Cfg: vrt.Config{MaxSteps: 60000, Horizon: 20 * time.Minute}, Model: vrt.CostDelay, Bound: bound,
 							New: func() vrt.Exec { return &exec{p: q} }})
 					}
-					if (strings.HasPrefix(behaviours[b].name, "closes-after") || behaviours[b].name == "never-reads") && !early && iobuf == 8 {
+					if behaviours[b].name == "never-reads" && !early && iobuf == 8 && (connbuf == 1 || rep.Thorough()) {
+						q := p
+						q.readdr = true
+						scns = append(scns, &vrt.Scenario{Name: q.String(), Cfg: vrt.Config{MaxSteps: 60000, Horizon: 20 * time.Minute}, Model: vrt.CostDelay, Bound: bound,
+							New: func() vrt.Exec { return &exec{p: q} }})
+					}
+					if (strings.HasPrefix(behaviours[b].name, "closes-after") || behaviours[b].name == "never-reads") && !early && iobuf == 8 && (connbuf == 1 || rep.Thorough()) {
 						q := p
 						q.remove = true
 						scns = append(scns, &vrt.Scenario{Name: q.String(), Cfg: vrt.Config{MaxSteps: 60000, Horizon: 20 * time.Minute}, Model: vrt.CostDelay, Bound: bound,
